@@ -2,6 +2,7 @@ package vc
 
 import (
 	"go/ast"
+	"go/token"
 	"go/types"
 	"sort"
 	"strings"
@@ -86,6 +87,116 @@ func (e *Engine) guardedCoverage(prop string) []*FuncReport {
 					goal = "true"
 				}
 				c.oblige(st, "guarded-coverage", typeName+"."+fieldName, goal, "every function that touches "+typeName+"."+fieldName+" is under a lock-discipline contract", false, fd)
+				reps = append(reps, &FuncReport{Key: key, Obls: c.Obls, Ctx: c})
+			}
+		}
+	}
+	reps = append(reps, e.ownedCoverage(prop)...)
+	return reps
+}
+
+// OwnedSpec: `owned T.f, T.g by fn1, fn2 for PROP`: the listed fields of struct T may be
+// assigned (=, op=, ++, --) only inside the listed functions of the package.  One obligation
+// per function of the package that writes one of the fields: true iff the function is a
+// listed owner.  This is a frame/ownership condition checked on the syntax of the current
+// source: the contracts of the owners then describe every way the fields can change.
+type OwnedSpec struct {
+	PkgPath  string
+	TypeName string
+	Fields   []string
+	Owners   []string
+	Props    []string
+}
+
+func (e *Engine) ownedCoverage(prop string) []*FuncReport {
+	var reps []*FuncReport
+	for _, os := range e.Owned {
+		has := false
+		for _, p := range os.Props {
+			if p == prop {
+				has = true
+			}
+		}
+		pkg := e.All[os.PkgPath]
+		if !has || pkg == nil {
+			continue
+		}
+		isOwned := func(sel *ast.SelectorExpr) (string, bool) {
+			s, ok := pkg.TypesInfo.Selections[sel]
+			if !ok || s.Kind() != types.FieldVal {
+				return "", false
+			}
+			rt := s.Recv()
+			if p, ok := rt.Underlying().(*types.Pointer); ok {
+				rt = p.Elem()
+			}
+			nm, ok := types.Unalias(rt).(*types.Named)
+			if !ok || nm.Obj().Name() != os.TypeName {
+				return "", false
+			}
+			for _, f := range os.Fields {
+				if f == s.Obj().Name() {
+					return f, true
+				}
+			}
+			return "", false
+		}
+		for _, f := range pkg.Syntax {
+			for _, d := range f.Decls {
+				fd, ok := d.(*ast.FuncDecl)
+				if !ok || fd.Body == nil {
+					continue
+				}
+				written := map[string]bool{}
+				note := func(x ast.Expr) {
+					if sel, ok := unparenExpr(x).(*ast.SelectorExpr); ok {
+						if fld, ok := isOwned(sel); ok {
+							written[fld] = true
+						}
+					}
+				}
+				ast.Inspect(fd.Body, func(n ast.Node) bool {
+					switch s := n.(type) {
+					case *ast.AssignStmt:
+						for _, l := range s.Lhs {
+							note(l)
+						}
+					case *ast.IncDecStmt:
+						note(s.X)
+					case *ast.UnaryExpr:
+						if s.Op == token.AND {
+							note(s.X) // taking the address allows a write elsewhere
+						}
+					}
+					return true
+				})
+				if len(written) == 0 {
+					continue
+				}
+				obj, _ := pkg.TypesInfo.Defs[fd.Name].(*types.Func)
+				if obj == nil {
+					continue
+				}
+				key := FuncKey(obj)
+				owner := false
+				for _, o := range os.Owners {
+					if o == fd.Name.Name {
+						owner = true
+					}
+				}
+				var flds []string
+				for k := range written {
+					flds = append(flds, k)
+				}
+				sort.Strings(flds)
+				fi := e.Funcs[key]
+				c := e.newCtx(fi, e.Contracts[key])
+				st := &State{pc: "true", vars: map[types.Object]Val{}, heap: map[string]string{}, alloc: "0"}
+				goal := "false"
+				if owner {
+					goal = "true"
+				}
+				c.oblige(st, "owned-write", os.TypeName+"."+strings.Join(flds, "+"), goal, "only "+strings.Join(os.Owners, ", ")+" may assign "+os.TypeName+"."+strings.Join(os.Fields, "/"), false, fd)
 				reps = append(reps, &FuncReport{Key: key, Obls: c.Obls, Ctx: c})
 			}
 		}
